@@ -9,3 +9,8 @@ spec fn took(a: AsmParser, b: AsmParser) -> bool { !at_end(a) && advanced(a, b, 
 spec fn untouched(a: AsmParser, b: AsmParser) -> bool { advanced(a, b, 0) && b.tok_end == a.tok_end }
 spec fn pstream_ok(p: AsmParser) -> bool { stream_ok(p.toks.all()) }
 
+/// stand-in for `self.get_span(tok.span).contains('-')` (str search: outside Verus' reach; trusted to look at the token's text)
+#[verifier::external_body]
+fn tok_text_has_minus(src: &'static str, tok: Token) -> (r: bool)
+    ensures r == tok_has_minus(tok),
+{ unimplemented!() }
